@@ -154,6 +154,33 @@ def run(rep, facts, tier):
                     okc = True
         rep.add('C11.R1', 'C11.R1:collect:count-checked-against-depth', okc, 'n > data_depth() -> StackUnderflow before slicing' if okc else
                 'collect does not bound its count by data_depth()', cf.name, cf.j['span'])
+    # the floor itself: a meta block starts with an empty stack of its own.  The floor a context opens with may be taken over
+    # from the enclosing context only where the new context cannot be a meta block
+    co = fx.need('state::State::context_open')
+    n_floor = 0
+    inherit_bad = []
+    for bb in co.reachable_blocks():
+        for st in co.blocks[bb]['stmts']:
+            if st['k'] != 'assign' or not any(isinstance(x, dict) and x.get('f') == 'ds_len' for x in st['lhs']['p']):
+                continue
+            v = expr_str(co.expr_of_rvalue(st['rv'], 0, frozenset()), -12)
+            n_floor += 1
+            if 'data_stack' in v:
+                continue
+            excluded = False
+            for (_, e, side) in guards_of(co, bb):
+                if isinstance(e, tuple) and e[0] == 'call' and 'cmp::PartialEq' in e[1] and 'ContextMode::MetaEval' in repr(e) \
+                        and "('arg', 2)" in repr(e):
+                    if (side if e[1].endswith('::ne') else not side):
+                        excluded = True
+            if not excluded:
+                inherit_bad.append((v[:40], st.get('at')))
+    rep.floor('C11.R1 assignments of the stack floor in context_open', n_floor, 2)
+    rep.add('C11.R1', 'C11.R1:context_open:meta-floor-is-current-depth', not inherit_bad,
+            'a meta context opens with the current depth as its floor' if not inherit_bad else
+            'context_open takes the floor over from the enclosing context (%s) also when a meta block opens inside a meta block: '
+            '`#( 7 #( depth #) + #)` gives 8, `#( 1 #( drop 5 #) #)` succeeds although `#( drop 5 #)` alone underflows' % inherit_bad[0][0],
+            co.name, inherit_bad[0][1] if inherit_bad else co.j['span'])
     # pop_special floored by ss_ptr
     ps = fx.need('state::State::pop_special')
     okp = any('ss_ptr' in expr_str(br[0], -10) for bb in ps.reachable_blocks() for br in [bool_branch(ps, bb)] if br)
@@ -247,6 +274,25 @@ def run(rep, facts, tier):
     rep.add('C11.R3', 'C11.R3:context_close:keeps-only-constants', keeps_const, 'entries other than Entry::Constant are removed' if keeps_const else
             'the dictionary purge does not test for Entry::Constant alone', cc.name, cc.j['span'])
 
+    # lookup takes the latest entry of a name: whatever removes entries must keep the survivors in their order
+    # (`#( : f 1 ; 1 const x #( 2 const x #) #) x`: swap_remove of f put the inner x before the outer one and x read 1)
+    n_perm = 0
+    for fn in sorted(fx.fns):
+        for w in awrite.field_writes(fx, fx.fns[fn], tracked):
+            if w['field'][0] != 'dict' or not w['how'].startswith('call:'):
+                continue
+            kind = w['how'].split(':')
+            if kind[1] == 'permute' or (kind[1] == 'shrink' and kind[2] in ('swap_remove', 'dedup')):
+                n_perm += 1
+                rep.add('C11.R3', 'C11.R3:dictionary-order-kept:%s:%s' % (fn, kind[2]), False,
+                        '%s changes the order of dictionary entries (%s): the dictionary is searched from its end, so which of two entries of one '
+                        'name is visible changes' % (short(fn), kind[2]), fn, w['at'])
+    rep.add('C11.R3', 'C11.R3:dictionary-order-kept', n_perm == 0, 'no function permutes State.dict (no swap_remove / swap / sort / reverse / rotate on it)'
+            if n_perm == 0 else '%d order-changing operations on the dictionary' % n_perm, 'state::State::context_close', cc.j['span'], nontrivial=False)
+    # code below the block's mark outlives the block: an instruction that patches itself while it runs (the Resolve stub of a `late`
+    # word) may not do so for good in a meta context - what it was bound to goes away at `#)`
+    check_runtime_code_patches(rep, fx, V, tracked)
+
     # ---------- R4
     RUN = 'state::State::run'
     allowed = {'state::State::context_close': 'mode', 'state::State::build1': 'mode', 'state::State::run_immediate': None,
@@ -274,6 +320,55 @@ def run(rep, facts, tier):
         ok = base in ('state::State::run', 'state::State::next', 'state::State::fetch_and_run')
         rep.add('C11.R4', 'C11.R4:caller-of-fetch_and_run:%s' % caller, ok, 'step driver' if ok else '%s executes instructions directly' % short(caller), caller,
                 fx.fns[caller].j['span'] if caller in fx.fns else None, nontrivial=False)
+
+
+def check_runtime_code_patches(rep, fx, V, tracked):
+    STEP = 'state::State::fetch_and_run'
+    f = V(STEP)
+    codew = set()        # functions that overwrite an element of State.code
+    for fn, g in fx.fns.items():
+        for w in awrite.field_writes(fx, g, tracked):
+            if w['field'][0] == 'code' and (w.get('elem') or w['how'].startswith('call:overwrite')):
+                codew.add(fn)
+    sites = []
+    for w in awrite.field_writes(fx, f, tracked):
+        if w['field'][0] == 'code' and (w.get('elem') or w['how'].startswith('call:overwrite')):
+            sites.append((w['bb'], w['at'], 'direct'))
+    for bb, t in f.calls():
+        c = callee_of(t)
+        if c in codew and c != STEP:
+            sites.append((bb, t.get('at'), short(c)))
+    rep.floor('C11.R3 run-time writes of an instruction (Resolve stub)', len(sites), 1)
+    restores = set()      # blocks that write back an instruction read from code before the patch
+    for w in awrite.field_writes(fx, f, tracked):
+        if w['field'][0] == 'code' and w.get('elem') and w['how'].startswith('assign'):
+            e = f.expr_of_rvalue(w['stmt']['rv'], 0, frozenset()) if w.get('stmt') else None
+            if e is not None and any(isinstance(x, tuple) and x[0] == 'call' and x[1] == 'core::mem::replace' for x in expr_walk(e)):
+                restores.add(w['bb'])
+    rets = set(f.return_blocks())
+    bad = []
+    n = 0
+    for bb, at, how in sites:
+        if bb in restores:
+            continue
+        n += 1
+        gs = guards_of(f, bb)
+        meta_sides = [(side if e[1].endswith('::eq') else not side) for (_, e, side) in gs
+                      if isinstance(e, tuple) and e[0] == 'call' and 'cmp::PartialEq' in e[1]
+                      and 'ctx.mode' in expr_str(e, -10) and 'ContextMode::MetaEval' in repr(e)]
+        if meta_sides and not meta_sides[-1]:
+            continue            # runs only when the mode is not MetaEval
+        if meta_sides and meta_sides[-1]:
+            # in the MetaEval branch: the stub has to be put back on every way out
+            from ..pathq import exists_path_avoiding
+            if restores and exists_path_avoiding(f, bb, lambda b: b in rets, restores) is None:
+                continue
+        bad.append((how, at))
+    rep.add('C11.R3', 'C11.R3:run-time-code-patch:not-for-good-in-a-meta-block', not bad,
+            '%d self-patching sites in the step function: each runs outside MetaEval, or puts the stub back before returning' % n if not bad else
+            'the step function overwrites an instruction (%s) also while meta-evaluating and does not put it back: `late foo : bar foo ; '
+            '#( : foo 2 ; bar #) drop : foo 1 ; bar` calls code the block has purged' % ', '.join(sorted({h for h, _ in bad})),
+            STEP, bad[0][1] if bad else f.j['span'])
 
 
 def _slice_from_floor(f, ev):
